@@ -115,7 +115,7 @@ func main() {
 		childMain(spec) // crash child: no Ctx, exits on its own (or is killed)
 		return
 	}
-	c := vf.New("C17", "exploration+fault_enumeration")
+	c := vf.New("C17", "fault_enumeration")
 	if vf.IsWorker() {
 		worker(c, vf.WorkerArg())
 		c.Finish()
